@@ -132,7 +132,10 @@ func internalMarshal(v any) (*internalStruct, error) {
 	for rt.Kind() == reflect.Ptr {
 		ret.PointerNum++
 		if rv.IsNil() {
+			// the levels below the nil one belong to the type as well: a nil **T is recorded with depth 2
+			rt = rt.Elem()
 			for rt.Kind() == reflect.Ptr {
+				ret.PointerNum++
 				rt = rt.Elem()
 			}
 			key, ok := rm[rt]
